@@ -35,6 +35,9 @@ type replayCase struct {
 	Tier    string             `json:"tier"`
 	Tape    []interp.TapeEntry `json:"tape"`
 	Repeat  int                `json:"repeat"`
+	// what the engine saw on the path (witnesses and samples; see zzverif/nondet)
+	WantReach    string            `json:"want_reach,omitempty"`
+	WantObserved map[string]string `json:"want_observed,omitempty"`
 }
 
 type replayResult struct {
@@ -191,6 +194,18 @@ func (rp *report) nativeReplay() {
 			rc := replayCase{ID: cr.id, Harness: shortName(cr.cex.Harness), Tier: rp.opts.Tier, Tape: cr.cex.Tape}
 			if cr.kind == "violation" || cr.kind == "known" {
 				rc.Repeat = 32 // outcomes may depend on Go's randomised map iteration order
+			} else {
+				// witnesses and samples: repeated until the native run agrees with what the engine saw on
+				// the path (which node a rate-limited plan picks follows the randomised map order); a
+				// native assertion failure or panic ends the repetition at once and is reported
+				rc.Repeat = 16
+				rc.WantObserved = cr.cex.Observed
+				if rc.WantObserved == nil {
+					rc.WantObserved = map[string]string{}
+				}
+				if cr.kind == "witness" {
+					rc.WantReach = cr.cex.Assertion
+				}
 			}
 			cases = append(cases, rc)
 		}
